@@ -26,8 +26,8 @@ func init() {
 			"equality treats nil and empty slices alike and ignores ExtensionProfile when Extension is false",
 		},
 		Strata: []fw.Stratum{
-			{Name: "packet-roundtrip", N: fw.Const(60000, 4000000), Run: c01Packet},
-			{Name: "header-roundtrip", N: fw.Const(30000, 2000000), Run: c01Header},
+			{Name: "packet-roundtrip", N: fw.Const(400000, 8000000), Run: c01Packet},
+			{Name: "header-roundtrip", N: fw.Const(200000, 4000000), Run: c01Header},
 		},
 	})
 }
